@@ -29,7 +29,9 @@ def run_job(job, w):
     if job.get("targeted_yield", True):
         # sleeps at line boundaries inside the snapshot hand-off functions (engine.emit_now / drain, ComponentState's
         # update and filter closures, finish): widens the windows in which notifications can overtake each other
-        ty = harness.install_targeted_yield(p=0.3, max_sleep=0.004, seed=job.get("ty_seed", 0))
+        ty = harness.install_targeted_yield(p=0.3 if job.get("ty_which", "emission") == "emission" else 0.15,
+                                            max_sleep=0.004, seed=job.get("ty_seed", 0),
+                                            which=job.get("ty_which", "emission"))
     for sc in job["scenarios"]:
         wf, script = sc["wf"], sc["script"]
         nodes = wfgen.expand(wf)
@@ -56,7 +58,9 @@ def run_job(job, w):
         rec["sig"] = sig
         if r["watchdog_fired"]:
             w.count("watchdog_fired")
-            rec["stuck"] = {"scenario": sc, "diag": r.get("stuck_diag")}
+            rec["stuck"] = {"scenario": sc, "diag": r.get("stuck_diag"),
+                            "observable_errors": [{k: e[k] for k in ("seq", "comp", "which", "err")} for e in ev
+                                                  if e["kind"] == "observable.error"]}
             w.records.append(rec)
             continue
         viol, cnt = oracles.c02_judge(nodes, script, r, wf["stages"])
@@ -95,6 +99,11 @@ def run_job(job, w):
         if len(w.samples) < 1:
             w.sample({"workflow": wf, "script_components": script["components"], "outcomes": rec["outcome"],
                       "final_states": rec["states"], "expected": oracles.c02_expected(nodes, script)["rule"]})
+    if ty:
+        w.count("targeted_yield_lines", ty["lines"])
+        w.count("targeted_yields_injected", ty["yields"])
+        w.count("targeted_yield_code_objects_%s" % ty.get("which", "emission"), ty["code_objects"])
+        w.count("targeted_yield_unresolved_targets", ty.get("unresolved", 0))
 
 
 def classify(v, nodes, script, events):
@@ -121,11 +130,6 @@ def confirm_stuck_at_k1(scenario, attempts=2, cap_s=300.0):
         if "watchdog False" in out:
             return False
     return None
-
-
-    if ty:
-        w.count("targeted_yield_lines", ty["lines"])
-        w.count("targeted_yields_injected", ty["yields"])
 
 
 def _run_job_outer(job, w):
@@ -289,6 +293,7 @@ def main():
         rng.shuffle(scs)
         per_child = 12
         jobs = [{"K": K, "scenarios": scs[i:i + per_child], "targeted_yield": (i // per_child) % 4 != 3,
+                 "ty_which": ("emission", "controller", "both", "emission")[(i // per_child) % 4],
                  "ty_seed": rnd * 1000 + i} for i in range(0, len(scs), per_child)]
         res = vlib.fanout("checks.C02", jobs, c, timeout=1200)
         for r in res:
@@ -321,6 +326,20 @@ def main():
     c.extra["mean_distinct_signatures_per_pair"] = round(sum(sigs_per_pair) / max(1, len(sigs_per_pair)), 2)
     c.extra["dilation_K"] = K
     # stuck candidates -> K=1 confirmation
+    explained = []
+    for s in list(stuck):
+        # a stuck component whose state observable was terminated by an exception raised in repository code: the hang
+        # is explained by that exception (time dilation cannot raise it), no K=1 reproduction is needed
+        hung = set((s["diag"] or {}).get("components", {}))
+        errs = [e for e in s.get("observable_errors", []) if e["comp"] in hung]
+        if errs:
+            explained.append(s)
+            stuck.remove(s)
+            c.violation("stage loop does not terminate: the state observable of %s was terminated by %s and the "
+                        "component never learns that its engine exited" % (errs[0]["comp"], errs[0]["err"]),
+                        {"scenario": s["scenario"], "diag": s["diag"], "observable_errors": errs},
+                        finding_key=None)
+    c.count("stuck_runs_explained_by_terminated_observable", len(explained))
     for s in stuck[:3]:
         verdict = confirm_stuck_at_k1(s["scenario"])
         if verdict is True:
